@@ -531,3 +531,17 @@ def result_tables(ctx):
                     witness="%s raises at line %s: %s" % (fr.key, [n.lineno for n in real],
                                                           [ast.unparse(n)[:100] for n in real]),
                     replay={"handler": "circ_pump_direction", "input": {}} if real else None)
+
+
+# ---------------------------------------------------------------------------------------------
+# the friction-factor iteration: non-convergence is reported as PipeflowNotConverged, and the external root finder is never
+# called outside its domain (an empty selection makes scipy raise ValueError out of pipeflow -- finding F34); shared with C02
+
+for _g14 in (False, True):
+    def _mk_cb(g=_g14):
+        @unit("C05", "colebrook/%s" % ("gas" if g else "liquid"), functions=["pandapipes.pf.derivative_calculation:calc_lambda",
+                                                                              "pandapipes.pf.derivative_calculation:colebrook_white"], engine="E2")
+        def _u(ctx):
+            from contracts.C02 import _lambda_unit
+            _lambda_unit(ctx, g, "colebrook", False)
+    _mk_cb()
